@@ -328,10 +328,14 @@ func firstGoatFrame(stack string) string {
 	for _, l := range strings.Split(stack, "\n") {
 		l = strings.TrimSpace(l)
 		if strings.HasPrefix(l, "github.com/avos-io/goat") && !strings.Contains(l, "/vrt/") && !strings.Contains(l, "/vh/") {
-			if i := strings.Index(l, "("); i > 0 {
+			// "github.com/avos-io/goat.(*ClientConn).invoke(0x…" -> ".(*ClientConn).invoke"
+			l = strings.TrimPrefix(l, "github.com/avos-io/goat")
+			if i := strings.Index(l, "(0x"); i > 0 {
+				l = l[:i]
+			} else if i := strings.LastIndex(l, "("); i > 0 {
 				l = l[:i]
 			}
-			return strings.TrimPrefix(l, "github.com/avos-io/goat")
+			return l
 		}
 	}
 	return "?"
